@@ -98,3 +98,37 @@ package introspection
 //@   at call Document.ImportScalarTypeDefinitionWithDirectives: assert {a.specifiedBy.url.is.preserved} (len(arg3) > 0) == (fullType.SpecifiedByURL != nil)
 //@   modifies *
 //@   safety none
+
+// ----------------------------------------------------------------------------------------------
+// C17, generator half (schema -> introspection data). A Generator is reusable (NewGenerator / Generate(schema, data)):
+// what it reports for a schema depends on that schema only.
+//@ func introspectionVisitor.EnterDocument
+//@   requires i != nil && i.data != nil
+//@   ensures {the.data.generated.from.a.schema.depends.on.that.schema.only.no.root.type.name.is.left.from.an.earlier.run} i.queryTypeName == "" && i.mutationTypeName == "" && i.subscriptionTypeName == ""
+//@   modifies *
+
+//@ func NewFullType
+//@   ensures {a.fresh.empty.type} result != nil && fresh(result) && len(result.Interfaces) == 0 && len(result.PossibleTypes) == 0
+//@   pure
+
+// every implemented interface gets its own entry with its own name cell (the entries hold pointers to the names: two
+// entries sharing one cell would both show the name written last)
+//@ func introspectionVisitor.EnterObjectTypeDefinition
+//@   requires i != nil && i.definition != nil
+//@   let refs = i.definition.ObjectTypeDefinitions[ref].ImplementsInterfaces.Refs
+//@   ensures {one.entry.per.implemented.interface} len(i.currentType.Interfaces) == len(refs)
+//@   ensures {every.entry.has.its.own.name.cell} forall a in 0..len(i.currentType.Interfaces) :: forall b in 0..len(i.currentType.Interfaces) :: a != b ==> i.currentType.Interfaces[a].Name != i.currentType.Interfaces[b].Name
+//@   ensures {every.entry.is.an.interface.reference} forall a in 0..len(i.currentType.Interfaces) :: i.currentType.Interfaces[a].Kind == INTERFACE && i.currentType.Interfaces[a].Name != nil
+//@   modifies *
+//@   safety no-bounds
+//@   loop 0:
+//@     invariant i.currentType != nil && fresh(i.currentType)
+//@     invariant len(i.currentType.Interfaces) == phi0 + 1
+//@     invariant forall a in 0..len(i.currentType.Interfaces) :: allocated(i.currentType.Interfaces[a].Name) && i.currentType.Interfaces[a].Name != nil && i.currentType.Interfaces[a].Kind == INTERFACE
+//@     invariant forall a in 0..len(i.currentType.Interfaces) :: forall b in 0..len(i.currentType.Interfaces) :: a != b ==> i.currentType.Interfaces[a].Name != i.currentType.Interfaces[b].Name
+
+//@ func JsonConverter.importDefaultValue
+//@   requires j != nil
+//@   ensures {a.reported.default.value.is.imported.or.an.error.is.returned} defaultValue != nil && result1 == nil ==> result0.IsDefined
+//@   ensures {no.default.value.is.invented} defaultValue == nil ==> !result0.IsDefined && result1 == nil
+//@   modifies *
